@@ -202,6 +202,11 @@ def tweak_decl(rng, cls, vg):
                     and not (fd["k"] == "enumCls" and isinstance(v, str)):
                 if fd["k"] == "float" and isinstance(v, int):
                     v = gen.fl(v)
+                if fd["k"] == "seqOf" and fd["item"]["k"] == "enumCls" and isinstance(v, dict) and "l" in v:
+                    # a default is given in its normal form: members, not the names an Enum field also accepts
+                    # (a list mixing members and name strings makes serialize_val raise inside _default_to_json,
+                    # which then keeps the raw value: outside the model's untyped defaultJ)
+                    v = {"l": [({"e": [fd["item"]["cls"], x]} if isinstance(x, str) else x) for x in v["l"]]}
                 defaults.append([n, v])
     if defaults:
         cls["defaults"] = defaults
